@@ -188,7 +188,12 @@ def type_values(t, thorough):
             t = sgn * (k + 0.5) / 65536.0
             tb = struct.unpack("<Q", struct.pack("<d", t))[0]
             ties += [struct.unpack("<d", struct.pack("<Q", tb + d))[0] for d in (-2, -1, 0, 1, 2) if 0 <= tb + d < (1 << 64)]
-    ds = ties + [0.75 / 65536, -0.75 / 65536, 0.25 / 65536, -0.25 / 65536, -0.6 / 65536, -0.5, 32767.999992370605, 32767.99999999999, -32768.0 + 2 ** -30] + \
+    edges = []
+    for bd in (2147483647.0, 2147483648.0, 2147483646.0, 65536.0, 32768.0, 1073741824.0, 1.0, 0.5, 1.0 / 65536, 1.0 / 131072):
+        for sgn in (1.0, -1.0):
+            eb = struct.unpack("<Q", struct.pack("<d", sgn * bd))[0]
+            edges += [struct.unpack("<d", struct.pack("<Q", eb + d))[0] for d in (-3, -2, -1, 0, 1, 2, 3)]
+    ds = ties + edges + [0.75 / 65536, -0.75 / 65536, 0.25 / 65536, -0.25 / 65536, -0.6 / 65536, -0.5, 32767.999992370605, 32767.99999999999, -32768.0 + 2 ** -30] + \
          [0.0, -0.0, 1.0, -1.0, 0.5, 1.0 / 131072, 3.0 / 131072, 1.5, -2.75, 1e-3, math.pi, 2147483646.5, 2147483647.0, 2147483648.0, -2147483647.0, 1e10, -1e20, 1e300, 1e-300, 5e-324, float("inf"), float("-inf"), float("nan"), 0.49999999999999994, 32767.999992370605]
     return sorted({struct.unpack("<Q", struct.pack("<d", d))[0] for d in ds})
 
